@@ -400,6 +400,17 @@ pub struct JaxFiles {
 /// Renders the facts. Terms in `f.terms` order (stanzas), is_a lines in
 /// `f.edges` order, rows in `f.ann_calls` order (records without terms cannot
 /// be expressed and must not be present in `f`).
+/// Qualifier column of a disease row that must be kept: empty, or (in files with extra columns or blank rows) a text
+/// that is not exactly `NOT` - the statement of C09 drops a row only when its qualifier is `NOT`.
+pub fn kept_qualifier(noise: &JaxNoise, pos: usize) -> &'static str {
+    const QUALS: [&str; 12] = ["", "not", "", "Not", "NOT ", "", " NOT", "nOT", "NOTE", "", "KNOT", "N"];
+    if noise.extra_cols || noise.blank_rows {
+        QUALS[(pos + noise.eof as usize) % QUALS.len()]
+    } else {
+        ""
+    }
+}
+
 pub fn render_jax(f: &Facts, noise: &JaxNoise) -> JaxFiles {
     let mut obo = String::new();
     if !noise.no_header {
@@ -567,7 +578,7 @@ pub fn render_jax(f: &Facts, noise: &JaxNoise) -> JaxFiles {
             }
             k => {
                 let db = if k == OMIM { "OMIM" } else { "ORPHA" };
-                hpoa.push_str(&format!("{db}:{}\t{}\t\t{}{}\n", c.rec, name, hp(t), extra));
+                hpoa.push_str(&format!("{db}:{}\t{}\t{}\t{}{}\n", c.rec, name, kept_qualifier(noise, pos), hp(t), extra));
             }
         }
         if pos % 2 == 0 {
